@@ -580,6 +580,7 @@ Inductive effect :=
 | EResize (p : proto) (o : optid) (full : bool) (newlen : N)
 | EZeroQ (p : proto) (o : optid)
 | EOrigin (sets : list bool)                       (* WEBSOCKET-CHECKORIGIN set to these values in turn, then an upgrade with a foreign Origin *)
+| EResizeDeadline (p : proto)   (* a Recv bounded by RECV-DEADLINE 300 ms is pending while READQ-LEN is changed at 100 and 200 ms *)
 | EAlias (on_context : bool)     (* SUBSCRIBE given as a []byte whose buffer the caller then re-uses (twice): which topics are subscribed afterwards *)
 | EMaxRecv (tr : string) (via_socket : bool) (sets : list N) (msglen : N).
     (* MAX-RCV-SIZE set on a listener (or through its socket) to these values in turn, before and after Listen; then a new
@@ -597,6 +598,7 @@ Definition effect_expected (e : effect) : string :=
   | EResize _ _ _ _ => "kept"
   | EZeroQ _ _ => "works"
   | EOrigin sets => if last sets true then "refused" else "accepted"   (* the value in force is the last one set; default: check *)
+  | EResizeDeadline _ => "ontime"   (* the accepted deadline still governs the pending call *)
   | EAlias _ => "kept"          (* the values accepted are the bytes that were passed, whatever the caller does with its buffer later *)
   | EMaxRecv _ _ sets n => if max_recv_admits (last sets 1048576%N) n then "delivered" else "dropped"
   end.
